@@ -119,6 +119,41 @@ theorem eval_add_ints {s : Store} {w : World} {sp : Span} {t1 t2 : TId} {l1 l2 :
   simp only [Comp.bind, Val.isNumber, List.all_cons, List.all_nil, Bool.and_true, if_true, Bool.and_self, hsum, liftNum, retV, Num.toVal]
   exact .ret _ _ _ _
 
+/-- ㄱ on two delayed integers: the first is demanded (to decide what kind of product this is), then the second; the
+result is the exact product -/
+theorem eval_mul_ints {s : Store} {w : World} {sp : Span} {t1 t2 : TId} {l1 l2 : Option Int} {x y : Int}
+    {h1 h2 : Nat} {s1 s2 : Store} (f1 : Forces s w t1 (.int x) h1 s1) (f2 : Forces s1 w t2 (.int y) h2 s2)
+    (h : Nat) (hh1 : h1 ≤ h) (hh2 : h2 ≤ h) :
+    Eval s w (.comp ((bMultiply sp [.thunk t1 l1, .thunk t2 l2]).bind (fun a => .ret (Res.arg a)))) h
+      (.ok (.arg (.strict (.int (x * y))))) s2 w := by
+  simp only [bMultiply, checkMinArity, matchArguments, forceArg, forceAll, List.length_cons, List.length_nil, Bind.bind, Comp.bind, pure]
+  have h0 : ¬ (0 + 1 + 1 < 1) := by omega
+  simp only [h0, if_false, Comp.bind]
+  refine f1 h hh1 _ _ _ _ _ ?_
+  simp only [checkType, Val.isNumber, Val.isBoolean, List.all_cons, List.all_nil, Bool.and_true, Bool.true_or, if_true,
+    Comp.bind, Bool.false_eq_true, if_false]
+  refine f2 h hh2 _ _ _ _ _ ?_
+  have hprod : (numsOf [Val.int y]).foldlM Num.mul (Num.int x) = (.ok (Num.int (x * y)) : NumM Num) := by
+    have := C11.prod_ints [y] x
+    simpa [numsOf, Num.ofVal?] using this
+  simp only [Comp.bind, Val.isNumber, List.all_cons, List.all_nil, Bool.and_true, if_true, Num.ofVal?, hprod, liftNum, retV, Num.toVal]
+  exact .ret _ _ _ _
+
+/-- ㅈ on two delayed integers: both are demanded, left to right; the result is the Boolean `x < y` -/
+theorem eval_lt_ints {s : Store} {w : World} {sp : Span} {t1 t2 : TId} {l1 l2 : Option Int} {x y : Int}
+    {h1 h2 : Nat} {s1 s2 : Store} (f1 : Forces s w t1 (.int x) h1 s1) (f2 : Forces s1 w t2 (.int y) h2 s2)
+    (h : Nat) (hh1 : h1 ≤ h) (hh2 : h2 ≤ h) :
+    Eval s w (.comp ((bLessThan sp [.thunk t1 l1, .thunk t2 l2]).bind (fun a => .ret (Res.arg a)))) h
+      (.ok (.arg (.strict (.bool (decide (x < y)))))) s2 w := by
+  simp only [bLessThan, matchArguments, checkArity, forceArg, forceAll, List.length_cons, List.length_nil, List.contains_cons,
+    List.contains_nil, Bind.bind, Comp.bind, pure]
+  refine f1 h hh1 _ _ _ _ _ ?_
+  simp only [Comp.bind]
+  refine f2 h hh2 _ _ _ _ _ ?_
+  simp only [Comp.bind, checkType, Val.isReal, List.all_cons, List.all_nil, Bool.and_true, Bool.and_self, if_true, List.map_cons,
+    List.map_nil, Num.ofVal?, retV, C11.lt_int]
+  exact .ret _ _ _ _
+
 theorem eval_true (s : Store) (w : World) (sp : Span) (h : Nat) :
     Eval s w (.comp ((bTrue sp []).bind (fun a => .ret (Res.arg a)))) h (.ok (.arg (.strict (.bool true)))) s w := by
   simp only [bTrue, checkArity, retV, List.length_nil, List.contains_cons, List.contains_nil, Bind.bind, Comp.bind]
